@@ -156,6 +156,9 @@ func runCase(r *hx.Run, sub uint64, ops []string) {
 		line, ans := op, "bad-op"
 		if f[1] == "new" {
 			var w world
+			if (kind == "pq" || kind == "gh") && len(f) > 3 {
+				r.Count("cmpkind:" + kind + "." + f[3])
+			}
 			if p := hx.Safely(func() { w = newWorld(kind, f[2:]) }); p != "" {
 				ans = "panic"
 			} else if w != nil {
@@ -293,6 +296,17 @@ var corpus = [][]string{
 	// handles: remove twice, remove after pop, remove the root and the last
 	{"pq new asc", "pq push 0 3", "pq push 1 1", "pq push 2 2", "pq push 3 1", "pq remove 1", "pq remove 1", "pq size", "pq pop", "pq remove 3", "pq pop", "pq pop", "pq pop", "pq remove 0"},
 	{"pq new desc", "pq push 0 3", "pq push 1 1", "pq push 2 2", "pq peek", "pq popuntil 2", "pq size", "pq popall", "pq isempty"},
+	// the Priority / Key type parameter: comparators that answer other magnitudes than -1/0/1 (seeded r6-1's history first)
+	{"pq new asc diff", "pq push 0 50", "pq push 1 10", "pq push 2 40", "pq push 3 20", "pq push 4 30", "pq push 5 0", "pq peek", "pq pop", "pq pop", "pq popuntil 35", "pq popall"},
+	{"pq new desc diff", "pq push 0 70", "pq push 1 30", "pq push 2 90", "pq push 3 10", "pq push 4 50", "pq remove 1", "pq remove 1", "pq popuntil 60", "pq popall"},
+	{"pq new asc ext", "pq push 0 3", "pq push 1 1", "pq push 2 2", "pq push 3 1", "pq peek", "pq popuntil 1", "pq pop", "pq popall"},
+	{"pq new desc ext", "pq push 0 3", "pq push 1 1", "pq push 2 2", "pq push 3 1", "pq peek", "pq popuntil 2", "pq pop", "pq popall"},
+	{"pq new asc big", "pq push 0 3", "pq push 1 1", "pq push 2 2", "pq remove 1", "pq peek", "pq popuntil 2", "pq popall"},
+	{"pq new desc asym", "pq push 0 3", "pq push 1 1", "pq push 2 2", "pq remove 0", "pq peek", "pq popuntil 2", "pq popall"},
+	{"pq new asc two", "pq push 0 3", "pq push 1 1", "pq push 2 2", "pq push 3 0", "pq peek", "pq popuntil 1", "pq popall"},
+	{"gh new asc diff", "gh push 0 50", "gh push 1 40", "gh push 2 30", "gh push 3 20", "gh push 4 10", "gh dump", "gh remove 2", "gh dump", "gh pop", "gh pop", "gh dump"},
+	{"gh new desc ext", "gh push 0 1", "gh push 1 2", "gh push 2 3", "gh push 3 4", "gh push 4 5", "gh dump", "gh remove 2", "gh dump", "gh pop", "gh pop", "gh dump"},
+	{"gh new asc two", "gh push 0 5", "gh push 1 4", "gh push 2 3", "gh push 3 2", "gh dump", "gh pop", "gh index 0", "gh dump"},
 	{"gh new asc", "gh push 0 5", "gh push 1 4", "gh push 2 3", "gh push 3 2", "gh push 4 1", "gh dump", "gh index 0", "gh index 4", "gh remove 2", "gh dump", "gh remove 2", "gh index 2", "gh pop", "gh dump", "gh remove 0", "gh remove 1", "gh remove 3", "gh pop"},
 	tpqCase("default", "push 0 @1 0", "push 1 @3 1", "push 2 @2 2", "peek", "popuntil @2 3", "popall"),
 	tpqCase("asc", "push 0 @1 4", "push 1 @3 5", "push 2 @2 0", "push 3 @2 2", "peek", "popuntil @2 1", "pop", "pop", "isempty"),
